@@ -16,5 +16,6 @@ PROP = {
                   "sign change or zero within the requested accuracy, zero ends returned bit-identically, linear functions to rounding, bad brackets terminate with a diagnostic). "
                   "Exploration over sampled functions/brackets: 'all continuous functions' is sampled, not exhausted.",
     "level_note": "Trusted: the driver's function families are continuous with a sign change on the bracket (checked at the ends); libm for the oracle's own evaluations.",
-    "assumptions": STD_ASSUME + ["functions are deterministic and continuous on the bracket; accuracy >= 1e-14*|root| (>= 45 ulp of the root)"],
+    "assumptions": STD_ASSUME + ["functions are deterministic and continuous on the bracket; accuracy >= 1e-14*|root| (>= 45 ulp of the root)",
+                                 "the accuracy is within 2^90 of the bracket width: Ridder's method at least halves the bracket per iteration and the library stops after 100 iterations (with a warning); on a saturating function it does little better than halving, so atan(x-3) on [-1e308,1e308] to 1e-3 is beyond what the routine can do and outside this check"],
 }
